@@ -1,14 +1,299 @@
 package main
 
-import "verifharness/core"
+// Part 2 of vh-c04: real ClientHandshake / ServerHandshake through an editing relay.
+
+import (
+	"bytes"
+	"context"
+	"fmt"
+	"io"
+	"sync"
+	"time"
+
+	"verifharness/core"
+	"verifharness/peer"
+	ss "verifharness/streamsim"
+
+	"github.com/bbockelm/cedar/security"
+	"github.com/bbockelm/cedar/stream"
+)
 
 type hsCase struct {
-	Shape string `json:"shape"`
-	Dir   string `json:"dir"`
-	Kind  string `json:"kind"`
-	Off   int    `json:"off"`
+	Shape string `json:"shape"` // noauth claimtobe resumed
+	Dir   string `json:"dir"`   // c2s s2c
+	Kind  string `json:"kind"`  // none flip insert0 insert1 drop split
+	Frame int    `json:"frame"` // index of the frame (per direction) the edit applies to
+	Off   int    `json:"off"`   // flip: byte offset inside the frame (header included)
 	Xor   int    `json:"xor"`
 }
 
-func part2(c *core.Ctx)       {}
-func runHS(h *hsCase) error { return nil }
+// relay forwards frames between two in-memory pipes, editing one direction.
+type relay struct {
+	c       hsCase
+	changed bool
+	mu      sync.Mutex
+	frames  map[string][][]byte // original frames seen per direction
+}
+
+func (r *relay) pump(dir string, src, dst *peer.Conn, wg *sync.WaitGroup) {
+	defer wg.Done()
+	defer dst.Close()
+	idx := 0
+	for {
+		hdr := make([]byte, 5)
+		if _, err := io.ReadFull(src, hdr); err != nil {
+			return
+		}
+		n := int(uint32(hdr[1])<<24 | uint32(hdr[2])<<16 | uint32(hdr[3])<<8 | uint32(hdr[4]))
+		if n > 4<<20 {
+			return
+		}
+		body := make([]byte, n)
+		if _, err := io.ReadFull(src, body); err != nil {
+			return
+		}
+		fr := append(hdr, body...)
+		r.mu.Lock()
+		r.frames[dir] = append(r.frames[dir], append([]byte(nil), fr...))
+		r.mu.Unlock()
+		out := [][]byte{fr}
+		if dir == r.c.Dir && idx == r.c.Frame {
+			switch r.c.Kind {
+			case "flip":
+				if r.c.Off < len(fr) {
+					m := append([]byte(nil), fr...)
+					m[r.c.Off] ^= byte(r.c.Xor)
+					out = [][]byte{m}
+					r.changed = true
+				}
+			case "insert0":
+				out = [][]byte{{0, 0, 0, 0, 0}, fr}
+				r.changed = true
+			case "insert1":
+				out = [][]byte{{1, 0, 0, 0, 0}, fr}
+				r.changed = true
+			case "drop":
+				out = nil
+				r.changed = true
+			case "split":
+				if n >= 2 {
+					h := n / 2
+					a := ss.RawFrame{Flag: 0, Len: uint32(h), Body: body[:h]}.Bytes()
+					b := ss.RawFrame{Flag: hdr[0], Len: uint32(n - h), Body: body[h:]}.Bytes()
+					out = [][]byte{a, b}
+					r.changed = true
+				}
+			}
+		}
+		for _, o := range out {
+			if _, err := dst.Write(o); err != nil {
+				return
+			}
+		}
+		idx++
+	}
+}
+
+type endpoints struct {
+	ccfg, scfg *security.SecurityConfig
+}
+
+func mkEndpoints(shape string) *endpoints {
+	p := peer.Policy{Auth: "NEVER", Enc: "REQUIRED", Integ: "REQUIRED", Methods: []string{"CLAIMTOBE"}, Ciphers: []string{"AES"}, Command: 60007}
+	if shape != "noauth" {
+		p.Auth = "REQUIRED"
+	}
+	e := &endpoints{ccfg: p.Config(), scfg: p.Config()}
+	return e
+}
+
+type hsOutcome struct {
+	cli, srv    peer.Result
+	changed     bool
+	c2sAccepted bool
+	s2cAccepted bool
+	clearFrames map[string]int // cleartext frames per direction (baseline runs)
+	frameLens   map[string][]int
+	resumed     bool
+}
+
+// one connection through the relay
+func connect(e *endpoints, c hsCase) hsOutcome {
+	old := peer.Timeout
+	peer.Timeout = 900 * time.Millisecond
+	defer func() { peer.Timeout = old }()
+	cA, rA, _ := peer.Pipe()
+	rB, sB, _ := peer.Pipe()
+	r := &relay{c: c, frames: map[string][][]byte{}}
+	var wg sync.WaitGroup
+	wg.Add(2)
+	go r.pump("c2s", rA, rB, &wg)
+	go r.pump("s2c", rB, rA, &wg)
+	var out hsOutcome
+	var hw sync.WaitGroup
+	hw.Add(2)
+	go func() {
+		defer hw.Done()
+		out.srv = peer.RunServer(sB, e.scfg)
+		if out.srv.Err != nil {
+			sB.Close()
+		}
+	}()
+	go func() {
+		defer hw.Done()
+		out.cli = peer.RunClient(cA, e.ccfg)
+		if out.cli.Err != nil {
+			cA.Close()
+		}
+	}()
+	hw.Wait()
+	if out.cli.Err == nil && out.srv.Err == nil && out.cli.Stream != nil && out.srv.Stream != nil {
+		out.c2sAccepted = exchange(out.cli.Stream, out.srv.Stream, []byte("application c2s"))
+		out.s2cAccepted = exchange(out.srv.Stream, out.cli.Stream, []byte("application s2c"))
+	}
+	cA.Close()
+	sB.Close()
+	wg.Wait()
+	out.changed = r.changed
+	// classify frames of this run: cleartext until the first frame the session key opens
+	out.clearFrames = map[string]int{}
+	out.frameLens = map[string][]int{}
+	key := out.cli.Key
+	for _, dir := range []string{"c2s", "s2c"} {
+		n := 0
+		for _, fr := range r.frames[dir] {
+			out.frameLens[dir] = append(out.frameLens[dir], len(fr))
+		}
+		if len(key) == 32 {
+			d := ss.NewDir(key)
+			other := ss.NewDir(key)
+			// feed the cleartext of BOTH directions in wire order is not needed to find the first
+			// protected frame: try to open each frame as a first frame with every digest combination
+			// is overkill; a protected frame is recognised by its length pattern instead: it cannot be
+			// parsed as a cleartext handshake message. We use the simple rule: frames before the
+			// server's post-auth ad / the first application message are cleartext.
+			_ = d
+			_ = other
+		}
+		_ = n
+	}
+	return out
+}
+
+func exchange(from, to *stream.Stream, msg []byte) bool {
+	ctx, cancel := context.WithTimeout(context.Background(), 700*time.Millisecond)
+	defer cancel()
+	done := make(chan bool, 1)
+	go func() {
+		got, err := to.ReceiveCompleteMessage(ctx)
+		done <- err == nil && bytes.Equal(got, msg)
+	}()
+	if err := from.SendMessage(ctx, msg); err != nil {
+		return false
+	}
+	select {
+	case ok := <-done:
+		return ok
+	case <-time.After(900 * time.Millisecond):
+		return false
+	}
+}
+
+// runShape performs the connection(s) of a shape with edit c applied to the LAST connection.
+func runShape(c hsCase) (hsOutcome, error) {
+	e := mkEndpoints(c.Shape)
+	if c.Shape == "resumed" {
+		first := connect(e, hsCase{Kind: "none"})
+		if first.cli.Err != nil || first.srv.Err != nil {
+			return first, fmt.Errorf("establishing handshake failed: %v / %v", first.cli.Err, first.srv.Err)
+		}
+	}
+	out := connect(e, c)
+	return out, nil
+}
+
+func runHS(h *hsCase) error {
+	out, err := runShape(*h)
+	if err != nil {
+		return err
+	}
+	if !out.changed {
+		if out.cli.Err != nil || out.srv.Err != nil || !out.c2sAccepted || !out.s2cAccepted {
+			return fmt.Errorf("untampered %s handshake or exchange failed: cli=%v srv=%v c2s=%v s2c=%v", h.Shape, out.cli.Err, out.srv.Err, out.c2sAccepted, out.s2cAccepted)
+		}
+		return nil
+	}
+	if out.c2sAccepted || out.s2cAccepted {
+		return fmt.Errorf("%s: relay altered cleartext (%s frame %d %s off %d xor %#x) yet application data was accepted (c2s=%v s2c=%v)", h.Shape, h.Dir, h.Frame, h.Kind, h.Off, h.Xor, out.c2sAccepted, out.s2cAccepted)
+	}
+	return nil
+}
+
+// number of cleartext frames per direction for each shape: everything the endpoints exchange
+// before the server's post-authentication ad (the first protected frame server->client) and
+// before the client's first application message. Determined from an untampered run: the
+// protected frames are the LAST frame(s) of each direction.
+func part2(c *core.Ctx) {
+	peer.Quiet()
+	for _, shape := range []string{"noauth", "claimtobe", "resumed"} {
+		base, err := runShape(hsCase{Shape: shape, Kind: "none"})
+		c.OracleCheck()
+		c.Evaluated(1)
+		if err != nil || base.cli.Err != nil || base.srv.Err != nil || !base.c2sAccepted || !base.s2cAccepted {
+			c.OracleFail("clean-run-failed", fmt.Sprintf("untampered %s run failed: %v cli=%v srv=%v c2s=%v s2c=%v", shape, err, base.cli.Err, base.srv.Err, base.c2sAccepted, base.s2cAccepted),
+				&desc{Part: 2, HS: &hsCase{Shape: shape, Kind: "none"}})
+			continue
+		}
+		if !base.cli.Encrypted || !base.srv.Encrypted {
+			c.OracleFail("clean-run-not-encrypted", shape+": session not encrypted; shape unusable", &desc{Part: 2, HS: &hsCase{Shape: shape, Kind: "none"}})
+			continue
+		}
+		// protected frames at the tail: s2c: post-auth ad (full handshakes only) + 1 app message;
+		// c2s: 1 app message. On a resumed session the server sends no cleartext at all or a short reply.
+		tail := map[string]int{"c2s": 1, "s2c": 2}
+		if shape == "resumed" {
+			tail["s2c"] = 1
+		}
+		c.Note(fmt.Sprintf("part 2 %s: frames c2s=%v s2c=%v (last %d/%d protected)", shape, base.frameLens["c2s"], base.frameLens["s2c"], tail["c2s"], tail["s2c"]))
+		stride := 1
+		if c.Quick() {
+			stride = 9
+		}
+		xors := []int{0x01, 0x80}
+		if c.Quick() {
+			xors = []int{0x01}
+		}
+		try := func(h hsCase) {
+			c.OracleCheck()
+			c.Evaluated(1)
+			if err := runHS(&h); err != nil {
+				c.OracleFail("binding-e2e", err.Error(), &desc{Part: 2, HS: &h})
+			}
+			c.Nontrivial(fmt.Sprint(h))
+			c.Count("hs-" + shape + "-" + h.Kind)
+		}
+		for _, dir := range []string{"c2s", "s2c"} {
+			nclear := len(base.frameLens[dir]) - tail[dir]
+			for fi := 0; fi < nclear; fi++ {
+				flen := base.frameLens[dir][fi]
+				start := (fi*7 + len(shape)) % stride
+				for off := start; off < flen; off += stride {
+					for _, x := range xors {
+						try(hsCase{Shape: shape, Dir: dir, Kind: "flip", Frame: fi, Off: off, Xor: x})
+					}
+				}
+				// header bytes always (end flag and length field)
+				for off := 0; off < 5 && stride > 1; off++ {
+					try(hsCase{Shape: shape, Dir: dir, Kind: "flip", Frame: fi, Off: off, Xor: 0x01})
+				}
+				try(hsCase{Shape: shape, Dir: dir, Kind: "insert0", Frame: fi})
+				try(hsCase{Shape: shape, Dir: dir, Kind: "insert1", Frame: fi})
+				try(hsCase{Shape: shape, Dir: dir, Kind: "split", Frame: fi})
+				if !c.Quick() || fi == 0 {
+					try(hsCase{Shape: shape, Dir: dir, Kind: "drop", Frame: fi})
+				}
+			}
+		}
+		c.Sample(map[string]interface{}{"part": 2, "shape": shape, "frames_c2s": base.frameLens["c2s"], "frames_s2c": base.frameLens["s2c"]})
+	}
+}
